@@ -129,7 +129,11 @@ def _build_unit(pid, uname, u, d):
         ncut = 0
         for i, line in enumerate(lines):
             if line.startswith('define ') and any(c in (line.split(' @', 1)[1] if ' @' in line else line).split('(')[0] for c in list(cuts) + list(keepout)):   # name = text after the first ' @' (return attrs like dereferenceable(8) contain parentheses)
-                lines[i] = re.sub(r'\)( (?:local_)?unnamed_addr)?( [^()]*)?\{$', lambda m: ')' + (m.group(1) or '') + ' noinline' + (m.group(2) or ' ') + '{', line); ncut += 1   # (unnamed_addr must precede function attributes)
+                pers = ''
+                if ' personality ' in line and line.endswith('{'):   # exceptions on: '... personality i8* bitcast (...) {' contains parentheses; attributes go before it
+                    line, pers = line.split(' personality ', 1); line += ' {'; pers = ' personality ' + pers[:-1].rstrip() + ' '
+                lines[i] = re.sub(r'\)( (?:local_)?unnamed_addr)?( [^()]*)?\{$', lambda m: ')' + (m.group(1) or '') + ' noinline' + (m.group(2) or ' ') + '{', line); ncut += 1
+                if pers: lines[i] = lines[i][:-1].rstrip() + pers + '{'   # (unnamed_addr must precede function attributes)
         if ncut == 0 and (cuts or keepout): raise Inconclusive('cut functions %s not found in IR of %s' % (cuts, u['wrapper']))
         open(os.path.join(d, 'w.raw.ll'), 'w').write('\n'.join(lines))
         rc, out, dt, to = sh(['opt-14', '-O1', '-disable-loop-unrolling', '-inline-threshold=%d' % u.get('inline_threshold', 100000), '-S',
